@@ -1120,6 +1120,28 @@ impl<'s> Walker<'s> {
                         let lead = if m.args.trailing_punct() { "" } else { ", " };
                         self.close(pc_start, &format!("{}Ghost({})", lead, pred), "R13");
                     }
+                    "try_into" if m.args.is_empty() => {
+                        // `v.try_into()` (Vec -> array): routed through a wrapper with the definitional contract (R13)
+                        self.open(es, "verif_try_into(", "R13");
+                        self.replace((re, ee), ")", "R13");
+                    }
+                    "take" if m.args.len() == 1 && matches!(&*m.receiver, Call(c) if matches!(&*c.func, Path(p) if p.path.is_ident("repeat_with"))) => {
+                        // `repeat_with(f).take(n)`  ->  verif_repeat_take(f, n)   (the closure may have mutable state: only the length is specified)
+                        if let Call(c) = &*m.receiver {
+                            if c.args.len() == 1 {
+                                let (fs, fe) = self.src.range(c.args[0].span());
+                                self.replace((es, fs), "verif_repeat_take(", "R13");
+                                self.replace((fe, po_end), ", ", "R13");
+                                // closing paren of take(...) is kept
+                                self.walk_arg_hof(&c.args[0], true);
+                                for a in m.args.iter() {
+                                    self.walk_arg(a);
+                                }
+                                self.depth -= 1;
+                                return;
+                            }
+                        }
+                    }
                     "enumerate" if m.args.is_empty() => {
                         self.open(es, "verif_enumerate(", "R13");
                         self.replace((re, ee), ")", "R13");
